@@ -174,6 +174,114 @@ def library_stream(chk, rng, n, stats):
             chk.oracle_fail("all generated names of %r are free but the run exited %s: %s" % (tpl, res.status, res.stderr.strip()[-160:]), case)
 
 
+def library_stream_modes(chk, rng, n, stats):
+    """Same idea in PATH and DIRECTORY mode and without/with different sort options: real gatherers (recursive or
+    not), real sorter or the plain listing order, library templates built from Dir/Name/Base/Ext/Upper and literals
+    whose value does not depend on the processing order.  Expected tree from an independent evaluator.  A run that
+    reports success must have put every selected entry exactly where the template says (once: a file that was moved
+    into a directory which is listed later must not be picked up again)."""
+    import os
+    from cli_driver import run_cli, snapshot
+    from sandbox import Sandbox
+
+    def stem_suffix(name):
+        i = name.rfind(".")
+        if 0 < i < len(name) - 1:
+            return name[:i], name[i:]
+        return name, ""
+    # (mode flag, template, relative path of the entry inside its input directory -> new relative path)
+    PATH_T = [
+        ("%Dir()/sub/%Name()", lambda rel: os.path.join(os.path.dirname(rel), "sub", os.path.basename(rel))),
+        ("moved/%Name()", lambda rel: os.path.join("moved", os.path.basename(rel))),
+        ("new/%Dir()/%Name()", lambda rel: os.path.join("new", os.path.dirname(rel), os.path.basename(rel))),
+        ("%Dir()/%Upper{%Base()}%Ext()", lambda rel: os.path.join(os.path.dirname(rel), stem_suffix(os.path.basename(rel))[0].upper() + stem_suffix(os.path.basename(rel))[1])),
+        ("%Dir()/deep/er/%Base().x", lambda rel: os.path.join(os.path.dirname(rel), "deep", "er", stem_suffix(os.path.basename(rel))[0] + ".x")),
+        ("sub/%Dir()/%Name()", lambda rel: os.path.join("sub", os.path.dirname(rel), os.path.basename(rel))),
+    ]
+    DIR_T = [
+        ("%Upper{%Name()}", lambda rel: os.path.join(os.path.dirname(rel), os.path.basename(rel).upper())),
+        ("%Name()_d", lambda rel: os.path.join(os.path.dirname(rel), os.path.basename(rel) + "_d")),
+        ("x%Base()%Ext()", lambda rel: os.path.join(os.path.dirname(rel), "x" + os.path.basename(rel))),
+    ]
+    names = ["a.txt", "b.txt", "c.dat", "Readme", "x.tar.gz", "IMG_1.jpg", "é.txt", "a b.c", "z"]
+    dnames = ["sub", "moved", "alpha", "beta.d", "Zed"]
+    SORTS = [[], ["-s", "%Name()"], ["-s", "%Name()", "-si"], ["-s", "%Size()"], ["-s", "%Dir()"]]
+    for it in range(n):
+        dirmode = it % 3 == 2
+        roots = rng.sample(["in", "in2", "d/in"], rng.randrange(1, 3))
+        spec = [("out/keep.txt", "f", "keep")]
+        cid = 0
+        for r in roots:
+            ds = [""] + [d + "/" for d in rng.sample(dnames, rng.randrange(0, 4))]
+            if "sub/" not in ds and rng.random() < 0.6:
+                ds.append("sub/")        # several templates move into "sub": it should often exist already
+            if rng.random() < 0.4 and len(ds) > 1:
+                ds.append(ds[1] + rng.choice(dnames) + "/")
+            for d in ds:
+                if d:
+                    spec.append((r + "/" + d.rstrip("/"), "d", None))
+                for nm in rng.sample(names, rng.randrange(0 if d else 1, 4)):
+                    cid += 1
+                    spec.append((r + "/" + d + nm, "f", "c" * (1 + cid % 7) + str(cid)))
+        recursive = (rng.random() < 0.7) and not dirmode      # directory mode + -r selects nested directories: F25's family
+        tpl, fn = rng.choice(DIR_T if dirmode else PATH_T)
+        sort = [] if (dirmode or rng.random() < 0.5) else rng.choice(SORTS)     # half of the runs in plain listing order
+        with Sandbox() as root:
+            pipe.materialise(root, spec)
+            snap0, ids = pipe.id_map(root)
+            init = pipe.canon(snap0, ids, root)
+            argv = ["-d" if dirmode else "-p", "-cs"] + sort + (["-r"] if recursive else []) + ["--", tpl] + roots
+            res = run_cli(argv, root, root=root, snapshots=False)
+            fin = pipe.canon(snapshot(root, with_times=False), ids, root)
+        stats["library_mode_runs"] = stats.get("library_mode_runs", 0) + 1
+        chk.count(("library-modes", tpl, tuple(roots), recursive, tuple(sort), json.dumps(spec)), nontrivial=True)
+        moves = {}
+        if dirmode:
+            # without --recursive, directory mode renames the directory arguments themselves (input directory = parent)
+            for r in roots:
+                moves[r] = os.path.normpath(os.path.join(os.path.dirname(r), fn(os.path.basename(r))))
+        for p, v in ([] if dirmode else init.items()):
+            if p.startswith("out/") or p == "out":
+                continue
+            owners = [x for x in roots if p.startswith(x + "/")]
+            if not owners:
+                continue
+            r = max(owners, key=len)
+            rel = p[len(r) + 1:]
+            if dirmode != (v[0] == "d"):
+                continue
+            if "/" in rel and not recursive:
+                continue
+            moves[p] = os.path.normpath(os.path.join(r, fn(rel)))
+        exp = dict(init)
+        dsts = list(moves.values())
+        moving = {s_: d_ for s_, d_ in moves.items() if s_ != d_}
+        free = (len(set(dsts)) == len(dsts) and not any(d in init for d in moving.values())
+                and not any(a != b and (b + "/").startswith(a + "/") for a in moving.values() for b in moving.values()))
+        for s_, d_ in moving.items():
+            for q in [q for q in exp if q == s_ or q.startswith(s_ + "/")]:
+                exp.pop(q, None)
+        for s_, d_ in moving.items():
+            for q, v in init.items():
+                if q == s_ or q.startswith(s_ + "/"):
+                    exp[d_ + q[len(s_):]] = v
+            if not dirmode:
+                par = os.path.dirname(d_)
+                while par and par not in exp:
+                    exp[par] = ("d",)
+                    par = os.path.dirname(par)
+        case = {"scenario": {"mode": "directory" if dirmode else "path", "strategy": "stop", "answers": [], "plan": [], "tree": spec, "argv": argv},
+                "status": res.status, "report": res.report()[:6], "stderr": res.stderr[-300:]}
+        if res.status == 0 and pipe.strip_hash(exp) != pipe.strip_hash(fin):
+            diff = sorted(p for p in set(exp) | set(fin) if pipe.strip_hash(exp).get(p) != pipe.strip_hash(fin).get(p))
+            chk.oracle_fail("status 0 but the tree is not what the template %r describes (%s mode); differing paths: %r" % (
+                tpl, case["scenario"]["mode"], diff[:6]), case)
+        elif free and res.status != 0:
+            chk.oracle_fail("all generated paths of %r are free but the run exited %s: %s" % (tpl, res.status, res.stderr.strip()[-160:]), case)
+        stats["library_mode_free"] = stats.get("library_mode_free", 0) + (1 if free else 0)
+        stats["library_mode_status0"] = stats.get("library_mode_status0", 0) + (1 if res.status == 0 else 0)
+
+
 def run(chk):
     rng = chk.rng
     quick = chk.tier == "quick"
@@ -210,6 +318,7 @@ def run(chk):
         obss.append(o)
     excluded = pipe.check_cases(chk, scns, obss)
     library_stream(chk, rng, 200 if quick else 8000, stats)
+    library_stream_modes(chk, rng, 240 if quick else 8000, stats)
     for s, o in list(zip(scns, obss))[-3:]:
         chk.sample({"mode": s["mode"], "plan": [(e["dir"], e["rel"], e["r"]) for e in s["plan"]][:5], "status": o["status"], "report": o["report"][:4]})
     chk.coverage["rule"] = (
